@@ -8,16 +8,30 @@ JSON: the collection glue (create_structure / put_handle / encode_from_state_val
 modelled in coq/theories/Json.v on serde_json's already parsed Value and C17_json proves that the round trip
 is the documented normalisation for every document; the extracted model AND the extracted spec (normalise)
 are compared with the implementation on every generated document, the Python oracle is kept as a third
-cross-check.  serde_json's text layer stays an oracle.  The properties format (java-properties crate + the
-glue) is NOT modelled in Coq: round-trip exploration against the property's own oracle, labelled as testing."""
+cross-check.  serde_json's text layer stays an oracle.
+Properties format: the java-properties 2.0.0 writer (escaping, windows-1252 EncodingWriter with its buffer, unpadded
+\\u escapes) and reader (windows-1252 decoding, natural / logical lines, LINE_RE, unescape) and the glue of
+map_to_properties / map_load_properties (prefix, from_utf8, trim_end_matches) are modelled in coq/theories/CodecProps.v;
+C17_properties proves the round trip for all maps / orders / strings of the exact domain `representable`.  The check
+compares (a) the text of the real map_to_properties with the extracted writer on every generated map, (b) the real
+map_load_properties with the extracted reader on the texts the implementation wrote AND on a malformed stream
+(comments, continuation lines, separators, escapes, \\u sequences, CR/LF/CRLF, high bytes, long lines), (c) on the
+domain the real round trip with the theorem's right-hand side.  Off the domain (known finding F18, and the
+truncated-escape class) only model == implementation is required."""
 import itertools
 import json
 import re
 import vlib
 from vlib import enc_str, dec_str, enc_list, dec_list
+from props import c17_props
 
 THEOREMS = ["C17_b64", "C17_utf8", "C17_utf8_bytes", "C17_text_b64", "C17_hex", "C17_hex_cmds", "C17_nonvacuous",
-            "C17_json", "C17_json_ex", "C17_json_fuel", "C17_json_fresh", "C17_json_store", "C17_json_nonvacuous"]
+            "C17_json", "C17_json_ex", "C17_json_fuel", "C17_json_fresh", "C17_json_store", "C17_json_nonvacuous",
+            "C17_properties", "C17_properties_prefix", "C17_properties_writer", "C17_properties_fuel", "C17_properties_ascii",
+            "C17_properties_short", "C17_properties_nodup", "C17_properties_nonvacuous", "C17_properties_F18_witnesses",
+            "C17_properties_F18_refuted", "C17_properties_truncation_witnesses", "C17_properties_truncation_refuted",
+            "C17_properties_bom_witnesses", "C17_properties_bom_refuted", "C17_properties_lines"]
+PROPS_THEOREMS = ["C17_properties", "C17_properties_prefix", "C17_properties_writer"]
 JSON_THEOREMS = ["C17_json", "C17_json_fresh", "C17_json_fuel"]
 
 
@@ -428,66 +442,53 @@ def run(ck):
                               "model": mo, "model_text": show(mo), "spec": so, "spec_text": show(so),
                               "python_oracle": want, "python_oracle_text": None if v is None else serde_dump(v),
                               "theorems": JSON_THEOREMS, "seed": ck.seed})
-    docs = trees
-    # known finding F18 (java-properties writer escapes code points as unpadded \\u{:x}): witnesses
-    f18 = [k for k in ck.open_findings() if k.get("id") == "F18"]
-    wit = [{"k": "é"}, {"k": "\x01"}, {"k": "😀"}]
-    wout = ck.impl(["PROPS\t%s\t%s" % (enc_list(list(d.keys())), enc_list(list(d.values()))) for d in wit])
-    for d, o in zip(wit, wout):
-        f = o.split("\t")
-        bad = not (len(f) > 1 and f[1] == "M" + enc_list(["k", d["k"]]))
-        if bad and f18:
-            ck.known("F18 map_to_properties/map_load_properties of %r -> %s" % (d, "error" if o == "E" else "wrong value"))
-        elif bad:
-            found = True
-            ck.violation({"kind": "properties round trip fails (unlisted)", "map": d, "implementation": o})
-    maps = []
-    kpool = ["k", "a.b", "a b", " k", "k ", "", "k=v", "k:v", "#k", "!k", "k\\", "k\tt", "日本", "a\nb"]
-    vpool = ["v", "v ", " v", "", "a=b", "a:b", "#x", "x\\", "x\\n", "line1\nline2", "tab\tx", "日本語", "  ", "\\", "\\u0041", "a\r\nb", "\x0c"]
-    for _ in range(3000 if thorough else 800):
-        d = {}
-        for _ in range(rng.randint(0, 4)):
-            k = rng.choice(kpool) if rng.random() < 0.7 else prop_text(rng, rng.randint(1, 5))
-            v = rng.choice(vpool) if rng.random() < 0.7 else prop_text(rng, rng.randint(0, 8))
-            d[k] = v
-        maps.append(d)
-    out = ck.impl(["PROPS\t%s\t%s" % (enc_list(list(d.keys())), enc_list(list(d.values()))) for d in maps])
-    nonlatin = 0
-    for d, o in zip(maps, out):
-        flat = []
-        for k in sorted(d):
-            flat += [k, d[k]]
-        f = o.split("\t")
-        dist["PROPS"] = dist.get("PROPS", 0) + 1
-        nontriv.add("P" + repr(sorted(d.items())))
-        got = f[1] if len(f) > 1 else o
-        if got != "M" + enc_list(flat):
+    # history stream: the same document parsed twice in ONE runtime, the first result edited in between (array_push / map_put
+    # on its root); the second parse | encode must still be the normalised document (a result must not depend on earlier parses)
+    hist = [(t, x) for t, x in zip(trees, jl) if tree_in_domain(t) and tree_stats(t)[0] > 0]
+    if not thorough:
+        hist = hist[:400]
+    hout = ck.impl(["JSONH\t" + x for _, x in hist])
+    jstat["history_cases"] = len(hist)
+    for (t, x), o in zip(hist, hout):
+        v = tree_oracle(t)
+        want = "N" if v is None else "V" + enc_str(serde_dump(v))
+        dist["JSONH"] = dist.get("JSONH", 0) + 1
+        if o != want:
             found = True
             if len(ck.violations) < 5:
-                ck.violation({"kind": "map_to_properties | map_load_properties does not give back the map", "map": d,
-                              "wire": "PROPS\t%s\t%s" % (enc_list(list(d.keys())), enc_list(list(d.values()))),
-                              "expected": "M" + enc_list(flat), "implementation": o,
-                              "text": dec_str(f[0][1:]) if f[0][:1] == "V" else f[0], "seed": ck.seed})
+                ck.violation({"kind": "second json_parse --collection | json_encode --collection of the same text in one runtime (first result edited "
+                                      "in between) differs from the normalised document", "document": tree_text(t), "wire": "JSONH\t" + x,
+                              "implementation": o, "implementation_text": show(o), "expected": want, "theorems": JSON_THEOREMS, "seed": ck.seed})
+    docs = trees
+    # properties format: extracted writer / reader models (CodecProps.v) vs map_to_properties / map_load_properties
+    pfound, pevals, pcov = c17_props.run_props(ck, rng, thorough, dist, nontriv)
+    found = found or pfound
     ck.coverage.update({
-        "evaluations": len(both) + len(texts) + 300 + len(u64s) + len(docs) + len(maps),
+        "evaluations": len(both) + len(texts) + 300 + len(u64s) + len(docs) + len(hist) + pevals,
         "distinct_nontrivial": len(nontriv),
         "rule": "model-vs-implementation on: base64_encode of every byte string of length <= 2 (quick: 1/5 of length 2) + random to 300 bytes; "
                 "base64_decode of every string of length <= %d over an 11-character alphabet incl. padding/invalid characters + mutated valid encodings; "
                 "bytes_to_string of every 1/2-byte sequence and of boundary-byte sequences to length %d; string_to_bytes of %s scalar values; hex_encode / hex_decode "
-                "of boundary and random numbers and malformed numerals. Composite round trips on the implementation with the property as oracle. JSON (random documents, "
-                "depth <= 4, keys with dots/spaces/brackets) and properties (random maps, hostile keys/values) are exploration against a Python oracle, not modelled. "
+                "of boundary and random numbers and malformed numerals. Composite round trips on the implementation with the property as oracle. JSON: implementation == "
+                "extracted model == extracted spec per document. Properties: text of map_to_properties == extracted writer (sorted lines), map_load_properties == "
+                "extracted reader on the written texts and on a malformed stream, and on the domain `representable` the round trip == the theorem's right-hand side "
+                "(exhaustive: one pair with key of length <= 1 and value of length <= 2 over 41 critical characters; every pair of the 128 non-ASCII windows-1252 "
+                "characters; every BMP code point alone in thorough). "
                 "non-trivial = distinct case whose result is a value (not an error) on a non-trivial input" % (5 if thorough else 4, 4 if thorough else 3, "ALL" if thorough else str(len(scal))),
         "exhaustive": True,
         "exhaustive_part": {"base64_encode_upto_len2": n_enc_exh, "all_scalar_values": thorough},
-        "samples": [both[5], both[n_enc_exh + 3], tree_text(docs[9]), tree_text(docs[len(FIXED_TREES) + len(exh) + 3]), sorted(maps[1].items())],
+        "samples": [both[5], both[n_enc_exh + 3], tree_text(docs[9]), tree_text(docs[len(FIXED_TREES) + len(exh) + 3]), {"a b": " x\\y\n\u65e5"}],
         "case_distribution": dist,
         "json": dict(jstat, exhaustive_small_scope=len(exh), exhaustive_small_scope_complete=thorough, fixed=len(FIXED_TREES),
                      random_off_domain_skipped=n_off_gen,
                      compared="implementation == extracted model == extracted normalise == Python oracle, per document"),
+        "properties": pcov,
         "not_modelled": ["serde_json text layer (from_str, Value::to_string, Number::to_string, Map = BTreeMap ordering): oracle; the model works on the parsed Value",
                          "HashMap iteration order of a SubState (irrelevant to the output: the encoder's Map is sorted again)",
                          "json_parse / json_encode without --collection (variables form): not part of the theorem; harness case JSONV unused here",
-                         "java-properties reader/writer and the prefix/trim glue: exploration only"],
+                         "properties: DecodeIter's 64-byte input / output buffers (the reader model decodes the whole text at once), the regex engine (LINE_RE is "
+                         "modelled as the scanner it denotes), HashMap iteration order (the list order of the model; the theorem holds for every order), "
+                         "write_properties / read_properties (the variable forms; write_properties still trims with str::trim)"],
     })
     ck.report_broken(found)
     ck.assumptions += [
@@ -500,8 +501,13 @@ def run(ck):
         "JSON: an object is its key/value list in serde_json's Map iteration order with unique keys (hypothesis json_wfb); the check sends the keys already sorted by "
         "their UTF-8 bytes (BTreeMap order) and the text with the keys in a different order; maps are association lists in insertion order in the model",
         "JSON: the handle store is the fresh context's (store_wf: every cell was allocated by put_handle); out-of-fuel of the encoder (= unbounded recursion on a cyclic store) is excluded by C17_json_fuel",
-        "properties round trip: keys/values are drawn from the code points outside known finding F18's class (the java-properties writer escapes "
-        "code points as unpadded \\u{:x}, so control characters, U+0080..U+0FFF, the windows-1252 specials and non-BMP characters do not survive)",
+        "properties: the java-properties 2.0.0 crate and encoding_rs' windows-1252 encoder / decoder are modelled (not verified): write_escaped, the EncodingWriter loop "
+        "with the Vec<u8> growth policy (capacity 256, tripled when full), NaturalLines, LogicalLines, LINE_RE, unescape, u16::from_str_radix; the models are validated "
+        "against the crates on every run (texts byte for byte, reader results incl. error kind and line number, on written and on malformed texts)",
+        "properties: map values are StateValue::String (get_as_string of numbers / booleans is their to_string; other kinds are an error), the map handle exists; "
+        "the theorem's domain `representable` excludes exactly known finding F18 (unpadded \\u escapes; windows-1252 bytes that are not UTF-8), the truncated-escape "
+        "class (an escape cut at the end of the writer's buffer) and the byte-order-mark class (a key whose written bytes start with EF BB BF); off the domain only "
+        "model == implementation is compared",
         "JSON numbers are integers or a small pool of decimals whose serde_json rendering is fixed; float formatting is serde_json/ryu's",
     ]
 
